@@ -121,7 +121,7 @@ Cases ==
   \cup {ExactCaseS(k, 0, x.n, x.e2, x.str) : k \in {"float", "double"}, x \in ExpForms}
   \cup {[RtF(k, "desc", IF k = "float" THEN x.f ELSE x.d) EXCEPT !.hs = 1, !.str = x.str] : k \in {"float", "double"}, x \in SpecialLits}
   \cup (IF SweepStride > 0
-        THEN {[op |-> "sweep32", sign |-> s, exp |-> e, start |-> SweepStart % SweepStride, stride |-> SweepStride,
+        THEN {[op |-> "sweep32", sign |-> s, ex |-> e, start |-> SweepStart % SweepStride, stride |-> SweepStride,
                count |-> (8388608 - (SweepStart % SweepStride) + SweepStride - 1) \div SweepStride] : s \in {0, 1}, e \in 0..255}
         ELSE {})
 
